@@ -21,7 +21,7 @@ RULE = ("every generator over the documented kwargs grid (accessible_cells as co
 ASSUMPTIONS = ["grid shapes passed as numpy arrays", "fractions are floor/ceil-tolerant (docstring does not fix the rounding)"]
 NSHARDS = {"quick": 16, "thorough": 16}
 THRESHOLDS = {
-    "quick": {"repotests:ambient:gen:gen_dfs": 50, "c12:not-flagged": 500, "c12:perc-strict-subset": 200, "c12:no-forks-nontrivial": 100, "c12:random-path-ok": 1000,
+    "quick": {"repotests:ambient:gen:gen_dfs?repotests:runs": 50, "c12:not-flagged": 500, "c12:perc-strict-subset": 200, "c12:no-forks-nontrivial": 100, "c12:random-path-ok": 1000,
               "c12:exact-count-checked": 300, "c12:gen_dfs": 500, "c12:gen_wilson": 100, "c12:gen_percolation": 300,
               "c12:gen_dfs_percolation": 300, "c12:get_connected_component": 500, "c12:metadata-rejudged-after-draws": 1000, "c12:random-path-with-options": 3000, "hits:gen_dfs": 1},
 }
